@@ -112,7 +112,7 @@ Section Protocol.
     | OProtTc steps pts rel => simulate_protocol_time_course s (make_protocol steps) pts rel
     | OSteady => simulate_to_steady_state Y P flow conv fx s
     | OUpdPar u => (update_parameters s u, Done)
-    | OUpdVar o => update_variables Y P O yovr s o
+    | OUpdVar o => update_variables Y P O yovr fx s o
     | OClear => (clear_results Y P s, Done)
     end.
 
